@@ -561,6 +561,7 @@ func runC20(c *RunCtx) {
 	if c.Thorough && t.Intn(4) == 0 {
 		ntasks = 5 + t.Intn(4)
 	}
+	var base any
 	plans := make([][]*parOp, ntasks)
 	for ti := range plans {
 		nops := 1 + t.Intn(4)
@@ -570,6 +571,12 @@ func runC20(c *RunCtx) {
 				name = pickType(t, 5)
 			}
 			m := g.Value(name)
+			if collide != "" && base != nil && t.Intn(2) == 0 {
+				m = variantOf(base, t.Bulk()) // close relatives of one message in different tasks
+			}
+			if base == nil {
+				base = Clone(m)
+			}
 			op := &parOp{name: name, msg: m, pre: Clone(m), buf: &bytes.Buffer{}}
 			if t.Intn(2) == 0 {
 				op.doDecode = true
